@@ -36,13 +36,15 @@ var histPaths = []string{
 	// in one role must not be used for the other
 	`$["a"]`, `$[?(@ == '"a"')]`, `$[?(@.a == '"a"')]`, `$['a']`, `$[?(@ == "'a'")]`, `$["b"]`, `$[?(@ == '"b"')]`, `$.a\.b`, `$['a\\.b']`, `$[?(@ == 'a\.b')]`, `$[?(@ =~ /a\.b/)]`,
 	`$["a\nb"]`, `$[?(@ == '"a\nb"')]`, `$[?(@ == 'a')]`, `$.a`, `$[?(@ =~ /a/)]`, `$['"a"']`,
+	// ... with escapes whose meaning depends on the role (JSON-style in a name, backslash-drops in a string literal)
+	`$['a\nb']`, `$[?(@ == 'a\nb')]`, `$.s[?(@ == 'a\nb')]`, `$.s[?(@ == "a\nb")]`, `$['\n']`, `$[?(@ == '\n')]`, `$.s[?(@ == "\n")]`, `$["\n"]`, `$['\u0061']`, `$.s[?(@ == '\u0061')]`, `$["a\tb"]`, `$.s[?(@ == "a\tb")]`,
 	// degenerate tokens: the empty regex, the empty string literal, the empty names
 	`$[?(@.a =~ //)]`, `$[?(@ =~ //)]`, `$.s[?(@ =~ //)]`, `$[?(@.a == '')]`, `$['']`, `$[""]`, `$[?(@ == "")]`,
 }
 
 var histDocs = []string{`{"a":1,"b":[1,2,{"c":3}]}`, `[{"a":1},{"a":2,"b":1},[1,2,3]]`, `{"a":{"c":1},"b":{"c":2}}`, `[[1,2],[3]]`,
 	// members whose names / values are the texts above with and without their quote characters and backslashes
-	`{"a":"\"a\"","\"a\"":"quoted-a","'a'":"single-quoted-a","a.b":"a.b","a\\.b":"a-backslash-dot-b","a\nb":"a-lf-b","s":["a","\"a\"","'a'","a.b","a\\.b","\"b\"","\"a\nb\"","axb"]}`}
+	`{"a":"\"a\"","\"a\"":"quoted-a","'a'":"single-quoted-a","a.b":"a.b","a\\.b":"a-backslash-dot-b","a\nb":"a-lf-b","anb":"a-n-b","\n":"lf","n":"n","u0061":"u-0061","a\tb":"a-tab-b","atb":"a-t-b","s":["a","\"a\"","'a'","a.b","a\\.b","\"b\"","\"a\nb\"","axb","anb","a\nb","n","\n","u0061","a\tb","atb"]}`}
 
 // histConfigs builds the configurations; every user function tags its output
 // with the configuration it belongs to, so a leak between configurations is visible.
